@@ -1143,7 +1143,7 @@ func (x *Exec) ownerCheck(st *State, in ssa.Instruction, lv *LValue, write bool)
 	sty := lv.st.Underlying().(*types.Struct)
 	fname := sty.Field(lv.field).Name()
 	for _, od := range x.g.cs.Owners {
-		if od.Pkg != n.Obj().Pkg().Path() || od.Field != n.Obj().Name()+"."+fname {
+		if od.Pkg != n.Obj().Pkg().Path() || !ownerFieldIs(n, od.Field, fname) {
 			continue
 		}
 		x.ownerOblige(st, in, lv.st, lv.base, od, write, fname)
@@ -1209,7 +1209,7 @@ func (x *Exec) ownerCheckMap(st *State, in ssa.Instruction, m ssa.Value, write b
 				sty := pt.Underlying().(*types.Struct)
 				fname := sty.Field(fa.Field).Name()
 				for _, od := range x.g.cs.Owners {
-					if od.Pkg == n.Obj().Pkg().Path() && od.Field == n.Obj().Name()+"."+fname {
+					if od.Pkg == n.Obj().Pkg().Path() && ownerFieldIs(n, od.Field, fname) {
 						x.ownerOblige(st, in, pt, x.value(fa.X), od, write, fname+" (map contents)")
 					}
 				}
@@ -1248,4 +1248,31 @@ func (x *Exec) oldOf(st *State) *State {
 		return st.entry
 	}
 	return x.entry
+}
+
+// sameStructType: name denotes n itself or another named type of n's package declared with the very same struct
+// (`type Leaf Tree`): monitors and owners declared for Tree also govern accesses through a *Leaf.
+func sameStructType(n *types.Named, name string) bool {
+	if n.Obj().Name() == name {
+		return true
+	}
+	if n.Obj().Pkg() == nil {
+		return false
+	}
+	obj := n.Obj().Pkg().Scope().Lookup(name)
+	tn, ok := obj.(*types.TypeName)
+	if !ok {
+		return false
+	}
+	a, okA := tn.Type().Underlying().(*types.Struct)
+	b, okB := n.Underlying().(*types.Struct)
+	return okA && okB && a == b
+}
+
+func ownerFieldIs(n *types.Named, field, fname string) bool {
+	k := strings.LastIndex(field, ".")
+	if k < 0 {
+		return false
+	}
+	return field[k+1:] == fname && sameStructType(n, field[:k])
 }
